@@ -13,6 +13,7 @@ import (
 	"encoding/json"
 	"fmt"
 	"os"
+	"os/exec"
 	"runtime"
 	"runtime/debug"
 	"sort"
@@ -523,7 +524,7 @@ func main() {
 		}
 		var crashed []int
 		done := fw.Supervise(fw.SupOpts{N: nBatches, Workers: workers, CaseTimeout: 300 * time.Second, Mode: "batch", Env: env,
-			Stop: func() bool { return run.Expired() }},
+			Stop: func() bool { return run.Expired() || len(allViols) >= 40 || len(crashed) >= 8 }},
 			func(i int, res string, crash *fw.Crash) {
 				if crash != nil {
 					crashed = append(crashed, i)
@@ -534,7 +535,11 @@ func main() {
 				secWords[sp.cases[i].sec] += words - before
 			})
 		if done < nBatches {
-			run.Capped("budget")
+			if run.Expired() {
+				run.Capped("budget")
+			} else {
+				run.Capped("stopped early: 40 violations / 8 crashed batches are enough to report") // fw keeps at most 40 replay files
+			}
 		}
 		if len(crashed) == 0 {
 			continue
@@ -639,6 +644,28 @@ func replay() {
 	word, err := parseWord(doc.Replay.Word)
 	if err != nil {
 		fw.Fatalf("%v", err)
+	}
+	if os.Getenv("C06_REPLAY_CHILD") == "" {
+		// the word may kill the process: run it in a child (with clobberfree when it forces a GC, as the explorer does)
+		self, _ := os.Executable()
+		cmd := exec.Command(self, os.Args[1:]...)
+		cmd.Env = append(os.Environ(), "C06_REPLAY_CHILD=1")
+		if hasDeepHost(word) {
+			cmd.Env = append(cmd.Env, "GODEBUG=clobberfree=1")
+		}
+		out, err := cmd.CombinedOutput()
+		if len(out) > 6000 {
+			out = append(out[:6000], []byte("\n...")...)
+		}
+		os.Stdout.Write(out)
+		if err == nil {
+			os.Exit(0)
+		}
+		if ee, ok := err.(*exec.ExitError); ok && ee.ExitCode() == 1 {
+			os.Exit(1)
+		}
+		fmt.Printf("\nreplay: the process did not survive the word [%s]: %v\n", wordString(word), err)
+		os.Exit(1)
 	}
 	rc := 0
 	var traces [][]stepObs
